@@ -58,7 +58,7 @@ def method_src(prog, m):
     else:
         params.append("result: SubMsgResult")
         recs.append("let dataj = serde_json::json!({\"t\":\"-\"});")
-        recs.append("let secondj = serde_json::json!({\"kind\":\"result\",\"cf\":rec::result_text(&result).contains(\"callee failed\"),\"text\":rec::result_text(&result),\"ok\":result.is_ok()});")
+        recs.append("let secondj = serde_json::json!({\"kind\":\"result\",\"cf\":rec::result_text(&result).contains(\"callee failed\"),\"text\":rec::result_text(&result),\"ok\":result.is_ok(),\"full\":rec::result_full(&result)});")
     pay = PAYLOAD[m["payload"]]
     for n, t in pay:
         attr = "#[sv::payload(raw)] " if m["payload"] == "raw" else ""
